@@ -178,6 +178,8 @@ pub enum Kind {
     WriteAllVectored,
     SendAll,
     ReadLimited,
+    /// `AsyncFd::close` of a descriptor handed out by another operation.
+    CloseFd,
 }
 
 #[derive(Clone, Copy, Debug, PartialEq, Eq)]
@@ -208,7 +210,7 @@ impl Kind {
             | RecvFromVectored | LocalAddr | SockOpt | Statx | WaitId | ReadLimited => Class::Data,
             WriteVec | WriteStatic | WriteString | WriteBoxed | WriteArc | WriteVectored2
             | WriteVectoredTuple | Send | SendTo | SendVectored | Connect | Bind | SetSockOpt
-            | CreateDir | Rename | RemoveFile | Fsync | Truncate | Shutdown => Class::Plain,
+            | CreateDir | Rename | RemoveFile | Fsync | Truncate | Shutdown | CloseFd => Class::Plain,
             SendZc | SendToZc | SendVectoredZc => Class::TwoStep,
             ReadPool | RecvPool => Class::PoolOne,
             MultishotRead | MultishotRecv => Class::StreamBuf,
@@ -353,5 +355,11 @@ pub fn make(kind: Kind, env: &Env<'_>) -> Op {
         WriteAll => single(fd.write_all(data(n, 6)), |(): (), _| "unit".to_string()),
         WriteAllVectored => single(fd.write_all_vectored([data(n, 2), data(n + 1, 3)]), |(): (), _| "unit".to_string()),
         SendAll => single(fd.send_all(data(n, 5)), |(): (), _| "unit".to_string()),
+        CloseFd => unreachable!("CloseFd is made with make_close"),
     })
+}
+
+/// `fd.close()` as an operation.
+pub fn make_close(fd: AsyncFd) -> Op {
+    talloc::track(|| single(fd.close(), |(): (), _| "unit".to_string()))
 }
